@@ -96,6 +96,13 @@ func TestVerifC18Bucket(t *testing.T) {
 		if err != nil {
 			t.Fatal(err)
 		}
+		// a second handle on the same bucket (the server, the worker and the copy tool each open their own): what
+		// is written through one is listed and read through the other
+		b2, err := NewFSBucket(ctx, root, bname)
+		if err != nil {
+			t.Fatal(err)
+		}
+		handles := []BucketHandle{b, b2}
 		// a sibling bucket in the same root must never be affected
 		sib, _ := NewFSBucket(ctx, root, "sibling")
 		w, _ := sib.Object("keep.json").NewWriter(ctx)
@@ -112,7 +119,7 @@ func TestVerifC18Bucket(t *testing.T) {
 					data = bytes.Repeat([]byte("x"), 70000)
 				}
 				conflict := c18Conflict(model, name)
-				wr, err := b.Object(name).NewWriter(ctx)
+				wr, err := handles[rapid.IntRange(0, 1).Draw(t, "writeHandle")].Object(name).NewWriter(ctx)
 				if err == nil {
 					_, err = wr.Write(data)
 					if cerr := wr.Close(); err == nil {
@@ -245,8 +252,10 @@ func TestVerifC18Bucket(t *testing.T) {
 			},
 			"": func(t *rapid.T) {
 				// the bucket lists exactly the stored names
-				if got, want := c18List(t, b, ""), keys(model); strings.Join(got, "\n") != strings.Join(want, "\n") {
-					t.Fatalf("after %v: the bucket lists %v, stored are %v", trace, got, want)
+				for hi, h := range handles {
+					if got, want := c18List(t, h, ""), keys(model); strings.Join(got, "\n") != strings.Join(want, "\n") {
+						t.Fatalf("after %v: handle %d on the bucket lists %v, stored are %v", trace, hi, got, want)
+					}
 				}
 				// every stored object still reads back as last written
 				for name, want := range model {
@@ -328,7 +337,7 @@ func TestVerifC18Bucket(t *testing.T) {
 					defer cancel()
 					lctx = c
 				}
-				got, lerr := c18ListCtx(t, lctx, b, prefix)
+				got, lerr := c18ListCtx(t, lctx, handles[rapid.IntRange(0, 1).Draw(t, "listHandle")], prefix)
 				if lerr != nil {
 					if lctx.Err() == nil {
 						t.Fatalf("listing %q: %v", prefix, lerr)
